@@ -31,10 +31,12 @@ func (Engine) Info(prop string) core.Info {
 			"TCP mode follows the two-socket ARDOPc convention the library implements (control port, data port = control+1, no C:/D: prefixes), which the 2016 spec text in docs/ does not describe; the serial framing follows the spec",
 			"the model does not wait for the host's RDY/CRCFAULT acknowledgements the spec asks for (the property does not mention them); they are counted by a probe",
 			"in TCP mode the model keeps the CONNECTED -> data -> DISCONNECTED causality across the two sockets (it waits for the other socket to drain); the cross-socket race itself is not explored",
-			"after any malformed TNC output (non-spec line, frame too short for a type, raw garbage) only 'the process does not crash' and Write's n <= len(p) are judged",
+			"after any malformed TNC output (non-spec line, frame too short for a type, raw garbage) only 'the process does not crash', host->TNC framing and Write's n <= len(p) are judged",
+			"every signature ends in the regime of the run (serial|tcp plus -split, -eager, -coalesced, -maxframe from the plan and -disc-during-dial, -bufrace from what the model observed); the generator gives a run at most one of the plan-level stress features, so the plain regimes serial and tcp keep every clause strict",
+			"a Flush or Write issued after the TNC reported the end of the link is not judged (the library's select between 'flushed' and 'EOF' is random there)",
 		},
-		QuickRuns:    6000,
-		ThoroughRuns: 150000,
+		QuickRuns:    80000,
+		ThoroughRuns: 1500000,
 		WatchdogSec:  120,
 	}
 }
